@@ -149,14 +149,21 @@ class World:
         return {"rc": p.returncode, "stderr": err, "stdout": out, "hung": hung, "wall": time.time() - t0}
 
 
-def probe(name, inp, timeout=120, env=None):
+def probe(name, inp, timeout=120, env=None, fsize_limit=None):
     e = dict(os.environ)
     e["ACMED_VERIF_RUN"] = name
     e.pop("ACMED_VERIF_TRACE", None)
     if env:
         e.update(env)
     try:
-        p = subprocess.run([ACMED], input=json.dumps(inp), env=e, capture_output=True, text=True, timeout=timeout)
+        pre = None
+        if fsize_limit is not None:
+            def pre():
+                # the file system refuses to let a file grow beyond the limit: write(2) is cut short, then fails with EFBIG
+                import resource, signal
+                signal.signal(signal.SIGXFSZ, signal.SIG_IGN)
+                resource.setrlimit(resource.RLIMIT_FSIZE, (fsize_limit, fsize_limit))
+        p = subprocess.run([ACMED], input=json.dumps(inp), env=e, capture_output=True, text=True, timeout=timeout, preexec_fn=pre)
     except subprocess.TimeoutExpired:
         return {"ok": False, "hung": True}
     res = None
